@@ -6,12 +6,14 @@ import (
 	"errors"
 	"fmt"
 	"os"
+	"path/filepath"
 	"strconv"
 	"strings"
 	"sync"
 	"time"
 
 	"github.com/benbjohnson/litestream"
+	"github.com/benbjohnson/litestream/file"
 	"github.com/superfly/ltx"
 )
 
@@ -446,4 +448,47 @@ func (r *runner) scChunked() {
 	r.insert()
 	r.opSyncAndWait()
 	r.opClose()
+}
+
+// retryRestores: for every restore output whose staging file exists while the final name does not (the
+// previous process was killed between the creation of <out>.tmp and the rename), re-run the same restore
+// to the same output path WITHOUT cleaning anything up first. It must succeed, leave a sound database
+// and no staging file.
+func (r *runner) retryRestores() *stageError {
+	ents, _ := os.ReadDir(filepath.Join(r.root, "out"))
+	for _, e := range ents {
+		name := e.Name()
+		if !strings.HasSuffix(name, ".db.tmp") {
+			continue
+		}
+		out := r.outPath(strings.TrimSuffix(name, ".tmp"))
+		if _, err := os.Stat(out); err == nil {
+			continue // already published
+		}
+		rep := r.db.Replica
+		if strings.HasPrefix(name, "v3-") { // legacy layout: its own replica directory
+			dir := filepath.Join(r.replicaDir(), strings.TrimSuffix(name, ".db.tmp"))
+			rep = litestream.NewReplicaWithClient(nil, file.NewReplicaClient(dir))
+		}
+		_, err := r.op("restore-retry", func() (uint64, error) {
+			opt := litestream.NewRestoreOptions()
+			opt.OutputPath = out
+			return 0, rep.Restore(r.ctx, opt)
+		})
+		if err != nil {
+			return stageErr("restore-retry", fmt.Errorf("%s: %w", filepath.Base(out), err))
+		}
+		if _, err := os.Stat(out + ".tmp"); err == nil {
+			return stageErr("restore-retry", fmt.Errorf("%s.tmp is left behind after the retried restore", filepath.Base(out)))
+		}
+		cp := r.verifyPath("retry-" + filepath.Base(out))
+		_ = os.Remove(cp)
+		if err := copyFile(out, cp); err != nil {
+			return stageErr("restore-retry", err)
+		}
+		if err := integrityCheckPath(cp); err != nil {
+			return stageErr("restore-retry", fmt.Errorf("%s: %w", filepath.Base(out), err))
+		}
+	}
+	return nil
 }
